@@ -1,1 +1,1 @@
-
+import ArcheProofs.Props.C04
